@@ -31,8 +31,9 @@ def clause_props(c):
     return out
 
 
-def _unit_worker(cid):
-    """Runs in a pool process: generate + discharge one unit; returns picklable records."""
+def _unit_worker(job):
+    """Runs in a pool process: generate + discharge (a shard of) one unit; returns picklable records."""
+    cid, shard, nshards = job
     from .run import load_contracts
     from .contracts import REGISTRY
     from .explore import Unit, explore
@@ -48,8 +49,11 @@ def _unit_worker(cid):
         res = explore(unit)
         recs = []
         sample = None
+        from .vc import discharge_all
+        discharge_all(res.obligations, shard=shard, nshards=nshards)
         for ob in res.obligations:
-            discharge(ob, ob.detail)
+            if ob.status is None:
+                continue
             rec = {"oid": ob.oid, "status": ob.status, "kind": ob.kind, "label": ob.label,
                    "props": list(ob.props or []), "finding": ob.finding, "time": round(ob.time or 0, 4),
                    "backend": ob.backend, "src": (ob.src or "")[:300], "unit": cid}
@@ -63,6 +67,7 @@ def _unit_worker(cid):
                 except Exception:
                     pass
         return {"cid": cid, "ok": True, "records": recs, "paths": res.paths, "gen_time": res.gen_time,
+                "shard": shard, "n_generated": len(res.obligations),
                 "wall": time.time() - t0, "sha": unit.ext.sha, "file": unit.ext.path, "sample": sample,
                 "axioms": sorted(used_axioms), "strings": c.strings, "n_loops": unit.n_loops}
     except GenError as e:
@@ -93,14 +98,14 @@ def decode_model(ob):
 
 
 def _canary_worker(job):
-    cid, old, new = job
+    cid, old, new, only = job
     from .run import load_contracts
     from .contracts import REGISTRY
     from .canary import run_canary
     try:
         if not REGISTRY:
             load_contracts()
-        st, info = run_canary(cid, old, new)
+        st, info = run_canary(cid, old, new, only)
         return {"cid": cid, "old": old[:80], "new": new[:80], "status": st,
                 "info": [list(x) for x in info][:3] if isinstance(info, list) else str(info)[:300]}
     except Exception:
@@ -155,10 +160,16 @@ def check(prop, tier, verbose=False):
         cs = [k for k in REGISTRY[cid].canaries if prop in (k[2] if len(k) > 2 else REGISTRY[cid].props)]
         if tier == "quick":
             cs = cs[:2]
-        jobs_canary += [(cid, k[0], k[1]) for k in cs]
+        jobs_canary += [(cid, k[0], k[1], k[3] if len(k) > 3 else None) for k in cs]
     ctx = mp.get_context("fork")
-    with ctx.Pool(min(16, max(1, len(cids) + len(jobs_canary)))) as pool:
-        r_units = pool.map_async(_unit_worker, cids, chunksize=1)
+    with ctx.Pool(16) as pool:
+        jobs = []
+        for cid in cids:
+            n = max(1, REGISTRY[cid].shards)
+            jobs += [(cid, i, n) for i in range(n)]
+        # big sharded units first
+        jobs.sort(key=lambda j: -j[2])
+        r_units = pool.map_async(_unit_worker, jobs, chunksize=1)
         r_can = pool.map_async(_canary_worker, jobs_canary, chunksize=1)
         # bounded layer runs in this process meanwhile
         bounded = None
@@ -168,9 +179,31 @@ def check(prop, tier, verbose=False):
                 bounded = pm.bounded(tier, seed)
             except Exception:
                 berr = traceback.format_exc()[-2000:]
-        units = r_units.get()
+        units = merge_shards(r_units.get())
         canaries = r_can.get()
     return report(prop, tier, seed, units, canaries, bounded, berr, pm, t_start, verbose)
+
+
+def merge_shards(parts):
+    out = {}
+    for p in parts:
+        cur = out.get(p["cid"])
+        if cur is None:
+            out[p["cid"]] = p
+            continue
+        if not p["ok"]:
+            out[p["cid"]] = p if cur["ok"] else cur
+            continue
+        if not cur["ok"]:
+            continue
+        cur["records"] += p["records"]
+        cur["wall"] = max(cur["wall"], p["wall"])
+        cur["sample"] = cur.get("sample") or p.get("sample")
+        cur["axioms"] = sorted(set(cur["axioms"]) | set(p["axioms"]))
+    for u in out.values():
+        if u["ok"] and len(u["records"]) != u["n_generated"]:
+            u["ok"], u["error"] = False, "shard merge lost obligations (%d of %d)" % (len(u["records"]), u["n_generated"])
+    return list(out.values())
 
 
 def report(prop, tier, seed, units, canaries, bounded, berr, pm, t_start, verbose):
